@@ -182,6 +182,8 @@ func checkNarrow(v interface{}, path string) {
 		for _, x := range t {
 			checkNarrow(x, path+"[]")
 		}
+	case nil:
+		die("event field %s is null (TLC's Json module cannot read null)", path)
 	case int:
 		if t > 2147483647 || t < -2147483648 {
 			die("event field %s = %d does not fit TLC's 32-bit integers", path, t)
